@@ -30,7 +30,7 @@ LEVEL_NOTE = "Tolerance 2e-5 relative (float32 fields accumulate u += dU over up
 RULE = ("case = one layout (frame positions in steps, file partition, start, stop, direction, scalars, packing). Non-trivial: the run passes at least one frame step after the "
         "start (a hand-over happens); distinct by (positions, partition, start, stop, direction).")
 MANDATORY = ["forward", "reversed", "spacing_equals_dt", "irregular_spacing", "one_frame_per_file", "file_entered_in_middle", "start_on_frame", "start_between_frames",
-             "scalar_fields", "packed", "handover_steps_observed", "probe_steps", "reads_checked", "first_read_straddles_files"]
+             "scalar_fields", "packed", "handover_steps_observed", "probe_steps", "reads_checked", "first_read_straddles_files", "time_units_hours_or_days"]
 ASSUMPTIONS = ["frames on the model time grid, strictly increasing, covering [start, stop] (as the property quantifies)"]
 TIMEOUT = {"quick": 900, "thorough": 3000}
 PROBE = str(VERIF / "vmon" / "plugins" / "probe_ibm.py")
@@ -144,6 +144,9 @@ def run_case(case: dict[str, Any], wd: Path) -> dict[str, Any]:
              vel=dict(kind="frame_coded", amps_u=au, amps_v=av), h=dict(kind="flat", h=40.0),
              metric=dict(kind="uniform", dx=1.0e5, dy=1.0e5),  # huge cells: particles practically stay put
              scalars={name: dict(kind="const_frames", values=v) for name, v in scal_vals.items()})
+    if dt % 3600 == 0 and case["salt"] % 2:
+        w["time_units"] = ["hours since 2019-12-31 00:00:00", "days since 2020-01-01 00:00:00"][case["salt"] % 4 // 2]
+        sit_units = 1
     if case["packed"]:
         w["pack"] = {"u": 1.0e-4, "v": 1.0e-4}
         for name in scal_vals:
@@ -195,6 +198,7 @@ def run_case(case: dict[str, Any], wd: Path) -> dict[str, Any]:
     sit["start_between_frames"] = int(S not in P)
     sit["scalar_fields"] = int(case["nscalars"] > 0)
     sit["packed"] = int(case["packed"])
+    sit["time_units_hours_or_days"] = int("time_units" in w)
     # first frame read (prestep) in the middle of a file?
     pre = max([s for s in step_of_frame if s < 0], default=0)
     fpre = file_of_frame[frame_at_step[pre]]
